@@ -454,7 +454,7 @@ pub fn gen(rng: &mut Rng, n: usize, thorough: bool, stats: &mut Stats) -> Vec<St
 					gen_tween(rng, nclocks)
 				),
 				24 => format!("drop {} {}", rng.pick(&["track", "send", "clock", "lfo", "tweener", "listener", "sound", "spatial"]), rng.below(6)),
-				25 if rng.chance(1, 4) => format!("rate {}", rng.pick(RATES)),
+				25 | 26 if rng.chance(3, 4) => format!("rate {}", rng.pick(RATES)),
 				_ => {
 					let frames = match rng.below(6) {
 						0 => 1,
